@@ -34,6 +34,45 @@ P["C15"] = dict(cat="proof",
          "Tie: CMRctuComplementRowColumn / CMRctuTest on all small 0/1 matrices x all line choices incl. none, random larger ones.",
     note=NOTE_COMMON, tech="Coq proof of model = definition + extracted judge run against the implementation", ref="DESIGN.md C15")
 
+P["C02"] = dict(cat="proof",
+    text="Coq: regular_bf decides 'exists a +-1 signing of the nonzeros that is TU' (regular_bf_spec over the proved determinant "
+         "oracle, incl. the prefix-heredity lemma justifying the pruned search); judge soundness. Tie: CMRregularTest on all 0/1 "
+         "matrices with m*n <= 12/16 under a covering set of strategy x directGraphicness x seriesParallel x planarityCheck, all 4290 "
+         "5x5 matrices passing the R10 count test, random and structured supports with random parameter vectors incl. stop flags.",
+    note=NOTE_COMMON + "Camion's theorem (regular <=> Camion-signed version is TU) is not formalised; the cross-check through Camion signing is C09's correspondence.",
+    tech="Coq proof (oracle = signable-to-TU definition) + extracted judge run against CMRregularTest", ref="DESIGN.md C02")
+P["C05"] = dict(cat="proof",
+    text="Coq-verified certificate checker check_graph_cert (T acyclic, one edge per line, every column's support is the simple T-path "
+         "between the ends of its coforest edge): every 'yes' of any size is certified; by-construction instances carry the generating "
+         "graph as a witness the judge verifies (expected yes), non-graphic cores verified by the brute-force oracle give expected no "
+         "by heredity; verdict vs. brute-force definition for <= 4 rows (both entry points).",
+    note=NOTE_COMMON + "The brute-force oracle graphic_bf is proved sound for 'yes' via the certificate; its completeness (a 'no' of the oracle means non-graphic) "
+         "rests on the enumeration of all forests on m+1 nodes and is not formalised. graphic.c (Bixby-Wagner) is not modelled.",
+    tech="Coq-verified certificate checker + brute-force definition oracle (<= 4 rows) run against CMRgraphicTest*", ref="DESIGN.md C05")
+P["C06"] = dict(cat="proof",
+    text="Coq-verified signed certificate checker check_network_cert (signs along the tail-to-head path with arc reversals); support "
+         "graphicness vs. oracle; digraph witnesses for constructed instances; violators inside the matrix.",
+    note=NOTE_COMMON + "as C05; the 'no' side beyond 4 rows is covered by witnesses/cores and C10 relations only.",
+    tech="Coq-verified signed certificate checker run against CMRnetworkTest*", ref="DESIGN.md C06")
+P["C08"] = dict(cat="proof",
+    text="Coq: SP-reducibility is hereditary (SP_hereditary, general signed-embedding form), hence an irreducible non-empty remainder "
+         "refutes SP: the certificate (genuine reductions in order + irreducible remainder) decides the verdict for every size "
+         "(cert_verdict); greedy oracle = definition; violator check sound; judge soundness. Tie: all four entry points x output "
+         "subsets x maxNumReductions x stale caller counters, on the real hash range and with the range forced to 3/5 (17/2 in thorough).",
+    note=NOTE_COMMON + "2-separation check (ranks of the off-diagonal blocks) is executable but its soundness lemma is not stated; hash independence is "
+         "established by running the same streams on forced-collision builds (hook DISCOPT_CMR_VERIF_HASH_RANGE).",
+    tech="Coq proof of SP heredity + verified certificate checker run on every output, across forced hash ranges", ref="DESIGN.md C08")
+P["C14"] = dict(cat="proof",
+    text="Coq model rep_matrix / is_spanning_forest; exhaustive small multigraphs x offered forests (forests, non-forests, partial) x "
+         "coforest orders x reversals: matrix = model, transpose output = transpose, forest flag = definition.",
+    note=NOTE_COMMON + "edge lists with a repeated edge are outside the domain (not an edge set).",
+    tech="Coq executable definition + exhaustive differential correspondence", ref="DESIGN.md C14")
+P["C17"] = dict(cat="proof",
+    text="Coq: balanced_bf equals the definition over arbitrary duplicate-free index lists (incl. permutation invariance), violator check "
+         "sound, judge soundness (verdict written on every successful return; non-ternary => not balanced). Tie: all small ternary "
+         "matrices x algorithm x seriesParallel x violator requested, random/structured multi-block matrices.",
+    note=NOTE_COMMON, tech="Coq proof (oracle = definition) + extracted judge run against CMRbalancedTest", ref="DESIGN.md C17")
+
 ORDER = ["C%02d" % i for i in range(1, 21)]
 
 
